@@ -370,8 +370,12 @@ class ListGen(object):
                     f = rnd.choice(self.scalars)
                     body.append(["expr", ["bin", rnd.choice(["Le", "Ne", "Lt"]), ["it"], ["f", [f["name"]]]]])
             return ["foreach", [name], body]
-        if r < 0.58:
+        if r < 0.50:
             return ["expr", ["bin", rnd.choice(["Eq", "Le", "Gt", "Lt"]), ["sum", [name]], ["lit", rnd.randint(0, 3 * (1 << w))]]]
+        if r < 0.58:
+            # the sum against a narrow field: the comparison is as wide as the sum itself (w + bits(n-1)), not 32 bits
+            f = rnd.choice(self.scalars)
+            return ["expr", ["bin", rnd.choice(["Eq", "Eq", "Le", "Ge"]), ["sum", [name]], ["f", [f["name"]]]]]
         if r < 0.74:
             items = [["listref", [name]]]
             if rnd.random() < 0.5:
